@@ -3,6 +3,7 @@ from __future__ import annotations
 
 import collections
 import json
+import os
 import random
 from pathlib import Path
 
@@ -53,6 +54,51 @@ TRUSTED_BASE = [
     "oracle values from library leaf functions: Pulse.fall_time, waveform samples, "
     "RydbergEOM.detuning_off_options (float-only, parameters of the model)",
 ]
+
+
+def summarise(spec, res, exact, origin) -> dict:
+    """Picklable record of one history (what the parent process needs to account for it)."""
+    ops = collections.Counter()
+    errs = collections.Counter()
+    for st in res.ls.steps:
+        ops[st.op["k"]] += 1
+        if st.real[0] == "err":
+            errs[st.real[1]] += 1
+    return dict(
+        spec=spec, ops=res.ops, exact=exact, origin=origin, nsteps=res.nsteps,
+        canon=canonical([spec, res.ops]),
+        nontrivial=any(st.real[0] == "ok" and st.op["k"] not in ("declare", "dur", "est") for st in res.ls.steps),
+        op_counts=ops, err_counts=errs,
+        fails=[(i, f.prop, f.clause, f.msg, f.key) for (i, f) in res.fails],
+        divergence=res.divergence,
+    )
+
+
+def generate_records(fam, drv, rng, n_hist, stop=lambda: False, sink=None):
+    cfg = fam.cfg
+    for h in range(n_hist):
+        exact = rng.random() >= cfg.get("wrap_share", 0.2)
+        spec = gen_device(rng, rng.choice(cfg["wants"]))
+        g = HistoryGen(rng, spec, exact=exact, profile=rng.choice(cfg["profiles"]),
+                       p_invalid=cfg.get("p_invalid", 0.12))
+        res = run_history(drv, spec, g, exact, fam.monitors(), nops=rng.randrange(6, 32))
+        rec = summarise(spec, res, exact, "generated")
+        if sink is not None:
+            sink(rec)
+        yield rec
+        if stop():
+            break
+
+
+def _worker(args):
+    prop, seed, w, n = args
+    fam = SeqProperty(prop)
+    drv = Driver()
+    try:
+        rng = random.Random(f"{prop}-{seed}-w{w}")
+        return list(generate_records(fam, drv, rng, n))
+    finally:
+        drv.close()
 
 
 class SeqProperty:
@@ -149,43 +195,44 @@ class SeqProperty:
         seen_fail_keys = set()
 
         def handle(spec, res, exact, origin):
+            handle_rec(summarise(spec, res, exact, origin))
+
+        def handle_rec(rec):
             nonlocal nontrivial, evaluations, ambiguous
-            evaluations += res.nsteps
-            c = canonical([spec, res.ops])
-            if c not in distinct:
-                distinct.add(c)
-                if any(st.real[0] == "ok" and st.op["k"] not in ("declare", "dur", "est") for st in res.ls.steps):
+            spec, exact = rec["spec"], rec["exact"]
+            evaluations += rec["nsteps"]
+            if rec["canon"] not in distinct:
+                distinct.add(rec["canon"])
+                if rec["nontrivial"]:
                     nontrivial += 1
-            for st in res.ls.steps:
-                stats["ops"][st.op["k"]] += 1
-                if st.real[0] == "err":
-                    stats["errs"][st.real[1]] += 1
-            if len(samples) < 3 and res.nsteps >= 4:
-                samples.append(dict(device=spec, ops=res.ops[:12], origin=origin))
-            for (i, f) in res.fails:
-                if f.prop != prop:
+            stats["ops"].update(rec["op_counts"])
+            stats["errs"].update(rec["err_counts"])
+            if len(samples) < 3 and rec["nsteps"] >= 4:
+                samples.append(dict(device=spec, ops=rec["ops"][:12], origin=rec["origin"]))
+            for (i, fprop, clause, msg, key) in rec["fails"]:
+                if fprop != prop:
                     continue
-                kf = match_known(prop, f.key, findings)
+                kf = match_known(prop, key, findings)
                 if kf is not None:
                     known_hits[kf["id"]] += 1
                     continue
-                sig = json.dumps(f.key, sort_keys=True)
+                sig = json.dumps(key, sort_keys=True)
                 if sig in seen_fail_keys:
                     continue
                 seen_fail_keys.add(sig)
                 # shrink to a minimal history failing the same clause
-                def pred(r, clause=f.clause):
+                def pred(r, clause=clause):
                     return any(ff.prop == prop and ff.clause == clause for _, ff in r.fails)
-                small = shrink(drv, spec, res.ops[: i + 1], exact, self.monitors, pred)
-                violations.append(dict(property=prop, kind="monitor", clause=f.clause, message=f.msg,
-                                       key=f.key, device=spec, ops=small, exact=exact))
-            if res.divergence:
-                i, owner, why, amb = res.divergence
+                small = shrink(drv, spec, rec["ops"][: i + 1], exact, self.monitors, pred)
+                violations.append(dict(property=prop, kind="monitor", clause=clause, message=msg,
+                                       key=key, device=spec, ops=small, exact=exact))
+            if rec["divergence"]:
+                i, owner, why, amb = rec["divergence"]
                 stats["owners"][owner] += 1
                 if amb:
                     ambiguous += 1
                 elif owner == prop:
-                    owned_divergences.append(dict(device=spec, ops=res.ops[: i + 1], why=why, exact=exact))
+                    owned_divergences.append(dict(device=spec, ops=rec["ops"][: i + 1], why=why, exact=exact))
                 else:
                     foreign[owner] += 1
 
@@ -193,16 +240,20 @@ class SeqProperty:
         for item in self.corpus():
             res = run_history(drv, item["device"], item["ops"], item.get("exact", True), self.monitors())
             handle(item["device"], res, item.get("exact", True), "corpus")
-        # 2. generated histories
-        for h in range(n_hist):
-            exact = rng.random() >= self.cfg.get("wrap_share", 0.2)
-            spec = gen_device(rng, rng.choice(self.cfg["wants"]))
-            g = HistoryGen(rng, spec, exact=exact, profile=rng.choice(self.cfg["profiles"]),
-                           p_invalid=self.cfg.get("p_invalid", 0.12))
-            res = run_history(drv, spec, g, exact, self.monitors(), nops=rng.randrange(6, 32))
-            handle(spec, res, exact, "generated")
-            if violations and tier == "quick":
-                break
+        # 2. generated histories (thorough tier: spread over worker processes, one driver each)
+        workers = int(os.environ.get("VERIF_WORKERS", "0") or 0) or (min(12, os.cpu_count() or 1) if tier == "thorough" else 1)
+        if workers > 1:
+            import multiprocessing as mp
+
+            share = [n_hist // workers + (1 if w < n_hist % workers else 0) for w in range(workers)]
+            with mp.get_context("fork").Pool(workers) as pool:
+                for recs in pool.imap_unordered(_worker, [(prop, seed, w, share[w]) for w in range(workers)]):
+                    for rec in recs:
+                        handle_rec(rec)
+        else:
+            for rec in generate_records(self, drv, rng, n_hist, stop=lambda: bool(violations) and tier == "quick",
+                                        sink=handle_rec):
+                pass
         # 3a. translator tie broken (an obligation over a regenerated table fails): the
         # histories above were the search; without a failing input it is still reported
         if broken_tie and not violations:
